@@ -90,6 +90,16 @@ def gen_t2(sim, big=False, want_old=None):
     n_lock = sim.weighted("t2.nlock", [4, 3, 1])
     n_mem = sim.weighted("t2.nmem", [5, 2, 1])
     hdr_len = n_null + 5 * (n_lock + n_mem)
+    if sim.chance("t2.boundary", 0.12):
+        # aim the usable byte count at the 1-byte/3-byte length format boundary (254..260)
+        target = sim.randint("t2.boundary.avail", 254, 260)
+        n_lock = n_mem = 0
+        hdr_len = n_null
+        data_area = (target + hdr_len + 7) // 8 * 8
+        n_null += data_area - hdr_len - target
+        hdr_len = n_null
+        end = 16 + data_area
+        sim.probe("t2.avail_at_format_boundary")
     while hdr_len + 4 + 8 > data_area:       # tiny tags: drop control TLVs
         if n_mem:
             n_mem -= 1
@@ -225,6 +235,9 @@ def gen_t1(sim, big=False, want_old=None, product_layout=False):
     else:
         size = int(kind.split("-")[1])
         hr = b"\x12\x4C" if size == 512 and not sim.chance("t1.generic512", 0.3) else b"\x12\x30"
+    boundary = not product_layout and sim.chance("t1.boundary", 0.12)
+    if boundary:
+        size, hr = 296, b"\x12\x30"
     dynamic = size > 120
     n_null = sim.weighted("t1.nnull", [5, 2, 2, 1])
     n_lock = sim.weighted("t1.nlock", [4, 3, 1]) if dynamic else sim.weighted("t1.nlock", [6, 1])
@@ -233,6 +246,12 @@ def gen_t1(sim, big=False, want_old=None, product_layout=False):
     if product_layout:     # what the products really look like: no extra control TLVs
         n_null = n_lock = n_mem = 0
         std = dynamic
+    if boundary:
+        # usable bytes = 296 - 12 - 24 - header = 260 - header: aim at 254..260
+        n_lock = n_mem = 0
+        std = False
+        n_null = sim.randint("t1.boundary.nulls", 0, 6)
+        sim.probe("t1.avail_at_format_boundary")
     hdr_len = n_null + 5 * (n_lock + n_mem) + (10 if std else 0)
     ndef_offset = 12 + hdr_len
     tight = size <= 256 and sim.chance("t1.tight", 0.25)
